@@ -337,6 +337,25 @@ fn c12_one(ctx: &mut Ctx, c: &DayCase, r: &mut Rng) {
             }
         }
     }
+    // (3b) under a replacing policy other than nearest-good-day (whose search needs both twilights), the
+    // replaced Fajr depends on the Fajr angle only and the replaced Isha on the Isha angle only, as long
+    // as the angle change does not alter which conventional times exist (that decides whether the policy fires)
+    let is_good_day = matches!(c.p.extreme_latitude_method, ExtremeLatitudeMethod::NearestGoodDayAllPrayersAlways | ExtremeLatitudeMethod::NearestGoodDayFajrIshaInvalid);
+    if !none_policy && !is_good_day && c.p.intervals[&Prayer::Fajr] == 0. && c.p.intervals[&Prayer::Isha] == 0. {
+        let pattern = |d: &DayCase| d.with(|p| p.extreme_latitude_method = ExtremeLatitudeMethod::None).run().ok().map(|x| PRAYERS.iter().skip(1).map(|q| x[q].is_ok()).collect::<Vec<_>>());
+        let base_pat = pattern(c);
+        for (which, allowed) in [(Prayer::Fajr, vec![Prayer::Fajr, Prayer::Imsaak]), (Prayer::Isha, vec![Prayer::Isha])] {
+            let c2 = c.with(|p| *p.angles.get_mut(&which).unwrap() += 1.);
+            if pattern(&c2) == base_pat && base_pat.is_some() {
+                if let Ok(d) = c2.run() {
+                    if let Some(q) = same_except(&base, &d, &allowed) {
+                        ctx.fail(c2.to_json(), format!("{:?} angle +1 changed {:?}: {} -> {}", which, q, show_day(&base), show_day(&d)), format!("only {:?}", allowed));
+                        return;
+                    }
+                }
+            }
+        }
+    }
     // absent weather = default weather
     let wn = DayCase { w: None, ..c.clone() };
     let wd = DayCase { w: Some(Weather::default()), ..c.clone() };
